@@ -41,7 +41,7 @@ theorem hat_neg (a : Vec ℝ 3) (i j : Fin 3) : (SO3.hat (vneg a)) i j = -(SO3.h
 theorem dr_exp_closed (a : Vec ℝ 3) (h : Scalar.eps2 < sqNorm a) :
     SO3.dr_exp a = poly2 (SO3.hat a) (αr (sqNorm a)) (βr (sqNorm a)) := by
   ext i j
-  simp only [SO3.dr_exp, SO3.calc_S1, memoM_eq, sqNorm3_neg, cos_2_closed h, sin_3_closed h,
+  simp only [SO3.dr_exp, SO3.calc_S1, msmul, memoM_eq, sqNorm3_neg, cos_2_closed h, sin_3_closed h,
     Mat.of_get, poly2, mmul3, hat_neg, αr, βr]
   ring
 
@@ -49,7 +49,7 @@ theorem dr_exp_closed (a : Vec ℝ 3) (h : Scalar.eps2 < sqNorm a) :
 theorem dr_expinv_closed (a : Vec ℝ 3) (h : ¬ sqNorm a < Scalar.eps2) :
     SO3.dr_expinv a = poly2 (SO3.hat a) (1 / 2) (Ainv (sqNorm a)) := by
   ext i j
-  simp only [SO3.dr_expinv, SO3.calc_S1inv, SO3.ad, madd, memoM_eq, S1invA_closed h,
+  simp only [SO3.dr_expinv, SO3.calc_S1inv, msmul, SO3.ad, madd, memoM_eq, S1invA_closed h,
     Mat.of_get, poly2, mmul3, Ainv, Nat.cast_ofNat]
   ring
 
